@@ -51,6 +51,23 @@ CHECKS = {
              "stripping variant not yet exercised",
         technique="TLA+ spec + TLC model checking + replay with disconnect/reestablish on real channels + TLC trace validation",
         design_ref="DESIGN.md 4.1, 5/C03"),
+    "C11": dict(
+        category="model_checking",
+        text="spec/Transport models both brontide Machines (three-act handshake with per-act adversary, split, per-direction "
+             "cipher state [key epoch, nonce] with rotation at ROT, the buffered header/body ciphertext of a partially flushed "
+             "write, a byte-exact pipe, adversary moves corrupt/truncate/drop/swap/replay/reflect on undelivered bytes) and "
+             "brontide.Conn on top; TLC checks HsSound/HsComplete/HsWrongKey, KeysAgree, DeliveredPrefix, DeliveredGenuine, "
+             "ReadOkIffIntact, PristinePipe (a resumed flush never repeats, skips or re-encrypts a byte), NoNonceReuse for "
+             "ROT=3 incl. 5 rotations and every partial-flush pattern; generated schedules (bursts scaled to cross the real "
+             "1000-message rotation several times in both directions, sizes 0..65535), fixed tamper scenarios for every act, "
+             "a free driver with byte-offset adversary moves and a Conn variant run on the real code; errors, pending-buffer "
+             "accounting, pipe bytes, nonces, payload hashes and a learned bijection (key epoch -> real key fingerprint) are "
+             "validated by TLC with ROT=1000.",
+        note="AEAD/HKDF/ECDH assumed perfect; key pairs sampled; holds under the caller contract 'the reader stops at the first "
+             "error' (peer.Brontide does) - the Machine does not latch read errors (observation, demonstrated at model level "
+             "and on the code); known finding F16 (Conn.Read returns EOF for an empty message) reported as KNOWN-FINDING",
+        technique="TLA+ spec + TLC model checking + TLC trace validation of scripted-pipe executions of the real Machine/Conn",
+        design_ref="DESIGN.md 4.7, 5/C11"),
     "C15": dict(
         category="model_checking",
         text="spec/InvoiceRegistry transcribes updateLegacy/updateMpp/resolveReplayedHtlc, the UpdateInvoice appliers, AMP "
